@@ -18,6 +18,7 @@ import (
 
 	secp256k1 "gitlab.com/yawning/secp256k1-voi"
 
+	"verif/lib"
 	"verif/mc"
 	"verif/ref"
 )
@@ -1067,5 +1068,6 @@ func main() {
 	exploreDecode(fe)
 	exploreArith(fe, pairs)
 	R.Expect("sqrt/square", "sqrt/non-square", "sqrt_ratio/square", "sqrt_ratio/non-square", "decode/non-canonical string", "steering/stored limbs verified Montgomery images")
+	lib.ReportCarryCoverage(R, false)
 	R.Finish()
 }
